@@ -22,6 +22,11 @@ type Case struct {
 	// Hot: every call uses the same table entry (Offset), e.g. the one public key a service decodes on every request, instead
 	// of rotating through the table: per-operand counters add up as fast as process-wide ones.
 	Hot bool `json:"hot,omitempty"`
+	// Ring > 0: the working-set dimension. The calls walk a ring of Ring DISTINCT operand values (far more than the small table),
+	// each visited Dup times back-to-back, and come back to the first one after Ring*Dup calls: what a bounded store keyed by the
+	// operand's value (admission on second use, eviction, slot recycling) does wrong only shows once the working set exceeds it.
+	Ring int `json:"ring,omitempty"`
+	Dup  int `json:"dup,omitempty"`
 }
 
 // Variant is one table entry of an operation: a call with fixed operands that returns an error text when the result
@@ -35,6 +40,8 @@ type OpDef struct {
 	Build func() []Variant
 	// Special, when set, runs the whole case itself (operations that need a process-wide set-up such as the entropy source).
 	Special func(c Case) error
+	// Wide, when set, builds the variant for the i-th value of an unbounded family of distinct operands (working-set cases).
+	Wide func(i int) Variant
 }
 
 // Suite is a set of operations with one registered check per property.
@@ -68,6 +75,25 @@ func (s *Suite) run(c Case, o *gen.Obs) error {
 	o.NonTrivial()
 	if def.Special != nil {
 		return def.Special(c)
+	}
+	if c.Ring > 0 {
+		if def.Wide == nil {
+			return &gen.Inconclusive{Msg: "operation " + c.Op + " has no wide operand family"}
+		}
+		o.Class("working-set")
+		o.ClassIf(c.Ring > 1<<12, "working-set>2^12")
+		o.ClassIf(c.Ring > 1<<16, "working-set>2^16")
+		tab, dup := make([]Variant, c.Ring), max(1, c.Dup)
+		for i := 0; i < c.N; i++ {
+			idx := (i/dup + c.Offset) % c.Ring
+			if tab[idx] == nil {
+				tab[idx] = def.Wide(idx)
+			}
+			if msg := tab[idx](); msg != "" {
+				return gen.Fail("endurance/"+c.Op, "call number %d of %s in this process (operand %d of a ring of %d distinct operands, each used %d times in a row, round %d): %s", i+1, c.Op, idx, c.Ring, dup, i/(dup*c.Ring)+1, msg)
+			}
+		}
+		return nil
 	}
 	par := max(1, c.Par)
 	errs := make([]string, par)
@@ -166,6 +192,17 @@ func (s *Suite) Execute(t *testing.T) {
 			cases = append(cases, Case{Op: name, N: n, Offset: shard, Par: par})
 			if def.Special == nil {
 				cases = append(cases, Case{Op: name, N: n, Offset: shard * 5, Par: par, Hot: true})
+			}
+			if def.Wide != nil {
+				rings := []int{1<<8 + 1, 1<<12 + 1}
+				if os.Getenv("VERIF_TIER") == "thorough" {
+					rings = append(rings, 1<<16+1)
+				}
+				for _, ring := range rings {
+					if rounds := 3; ring*2*rounds <= max(n, 1<<15) || ring <= 1<<12+1 { // (a budget is a budget: the big ring only where it fits)
+						cases = append(cases, Case{Op: name, N: ring * 2 * rounds, Offset: shard, Ring: ring, Dup: 2})
+					}
+				}
 			}
 		}
 	}
